@@ -90,7 +90,21 @@ func (d *deepCopier) deepCopyIface(in, out reflect.Value) {
 	inElem := in.Elem()
 	switch inElem.Kind() {
 	case reflect.Ptr:
+		if inElem.IsNil() {
+			// a typed nil pointer: there is nothing to copy
+			out.Set(inElem)
+			return
+		}
+		// consult (and record in) the pointer map like deepCopyPtr does, so
+		// that pointers held in interface values neither break sharing nor
+		// recurse forever on reference cycles.
+		pKey := ptrKey{ptr: inElem.Pointer(), typ: inElem.Type()}
+		if ov, ok := d.ptrMap[pKey]; ok {
+			out.Set(ov)
+			return
+		}
 		newVal := reflect.New(inElem.Type().Elem())
+		d.ptrMap[pKey] = newVal
 		out.Set(newVal)
 		d.deepCopy(inElem.Elem(), newVal.Elem())
 		return
